@@ -286,6 +286,7 @@ def defaultOkB (p : NumSpec α) : Bool :=
                 && (!p.nonNeg || decide (¬ x < (zero : α)))
   | .none => !p.nonZero && !p.nonPos && !p.nonNeg
   | .str _ => !p.nonZero && !p.nonPos && !p.nonNeg
+  | .nan => !p.nonZero && !p.nonPos && !p.nonNeg
   | _ => false
 
 /-- an `int` input that violates a restriction of its parameter (the inputs `NumParam.add` lets through) -/
